@@ -3,6 +3,8 @@
 import logging
 from copy import copy, deepcopy
 from functools import partial
+from itertools import chain
+from sys import float_info
 from types import ModuleType
 from typing import TYPE_CHECKING, Dict, Iterable, List, Optional, Tuple, Union
 from warnings import warn
@@ -172,6 +174,14 @@ class Model(Object):
         if self.problem == interface:
             return
         self._solver = interface.Model.clone(self._solver)
+        # A solver restored from a copy or pickle reports missing bounds as
+        # +-DBL_MAX and the clone turns those into real bounds (which a later
+        # copy cannot even read back). Make them infinite again.
+        for entity in chain(self._solver.variables, self._solver.constraints):
+            if entity.ub is not None and entity.ub >= float_info.max:
+                entity.ub = None
+            if entity.lb is not None and entity.lb <= -float_info.max:
+                entity.lb = None
 
     @property
     def tolerance(self) -> float:
